@@ -65,6 +65,7 @@ def run(chk):
         rule_comment_scan(chk)
     rule_uniform_trivia(chk)
     rule_line(chk, ip)
+    rule_previous_definition(chk)
 
 
 def rule_adj(chk):
@@ -213,6 +214,57 @@ def rule_line(chk, ip):
                "write_message no longer derives the printed position from get_file_location", where(wm))
         unk = any(x.get("k") == "Const" and short(x["path"]) == "UNKNOWN" for x in F.walk(wm["thir"]))
         chk.ob("C14.diag/unknown-only", unk, "the position is omitted only for SourceLocation::UNKNOWN" if unk else "the UNKNOWN test around the position is gone", where(wm))
+
+
+def rule_previous_definition(chk):
+    """Redefinition diagnostics point at the previous definition: Context::begin_struct / register_struct_template /
+    begin_enum are walked on a model context whose scope already holds a type named S - what they return as the error
+    is the id of THAT type (the diagnostic prints its position as 'previous definition is here'), never the id of the
+    type being registered; with no such symbol the new type is registered."""
+    f = chk.facts
+    opt = lambda v: I.Enum("Option", "None") if v is None else I.Enum("Option", "Some", {"0": v})
+    tid = lambda n_: I.Enum("TypeId", None, {"0": n_})
+    name = lambda: I.Enum("Located", None, {"node": "S", "location": I.Opaque("location")})
+
+    def ctx(existing):
+        sym = I.HMap()
+        if existing is not None:
+            sym.put("S", [I.Enum("ScopeSymbol", "Type", {"0": tid(existing)})])
+        scope = I.Enum("ScopeData", None, {"symbols": sym, "parent_scope": opt(None), "owning_enum": opt(None), "scope_name": opt(None), "namespace": opt(None), "owning_struct": opt(None)})
+        return I.Enum("Context", None, {"module": I.Enum("Module", None, {"struct_registry": [], "struct_template_registry": [], "type_registry": I.Opaque("type registry"), "enum_registry": I.Opaque("enum registry")}),
+                                        "scopes": [scope], "current_scope": 0, "struct_template_data": []})
+    ext = {"TypeRegistry::register_type": lambda a: tid(90), "get_current_namespace": lambda a: opt(None), "EnumRegistry::register_enum": lambda a: I.Enum("EnumId", None, {"0": 0}),
+           "EnumRegistry::set_enum_type_id": lambda a: (), "EnumRegistry::get_enum_definition": lambda a: I.Enum("EnumDefinition", None, {"name": name(), "namespace": opt(None)}),
+           "push_scope_with_name": lambda a: 0}
+    n = 0
+    for fname, extra in (("begin_struct", [True]), ("register_struct_template", [I.Opaque("struct definition")]), ("begin_enum", [])):
+        fn = f.fn(fname, "rssl_typer", self_ty="Context") or f.fn(fname, "rssl_typer")
+        if not fn:
+            chk.note("C14.diag/previous-definition: %s not found; not decided for it" % fname)
+            continue
+        res = {}
+        for existing in (None, 41):
+            try:
+                r = I.Interp(f, max_depth=6, extern=ext).apply(fn, [ctx(existing), name()] + extra)
+                res[existing] = (r.variant, r.fields.get("0")) if isinstance(r, I.Enum) else ("?", r)
+            except I.Unknown as e:
+                res[existing] = ("aborts" if "panicking" in str(e) else "unreadable", str(e)[:80])
+        if any(v[0] == "unreadable" for v in res.values()):
+            chk.note("C14.diag/previous-definition: %s is not readable on the model context (%s); not decided for it" % (fname, [v for v in res.values() if v[0] == "unreadable"][0][1]))
+            continue
+        n += 1
+        e_ = res[41]
+        got = e_[1].fields.get("0") if e_[0] == "Err" and isinstance(e_[1], I.Enum) else None
+        bad = None
+        if res[None][0] != "Ok":
+            bad = "%s refuses a name that is not taken (%s)" % (fname, res[None][0])
+        elif e_[0] != "Err":
+            bad = "%s accepts a second type named like an existing one (%s)" % (fname, e_[0])
+        elif got != 41:
+            bad = "%s reports type %s as the previous definition of a redefined name; the existing definition is type 41 (%s): the note 'previous definition is here' points at the wrong place" % (
+                fname, got, "90 is the type being registered" if got == 90 else "?")
+        chk.ob("C14.diag/previous-definition/" + fname, bad is None, bad or "the error carries the existing definition's type id", where(fn), sample={"fn": fname})
+    chk.floor("C14.floor/redefinition-sites", n, 2, "registration functions evaluated for the previous-definition id")
 
 
 def rule_prepare_eval(chk, pt, toks):
